@@ -130,7 +130,7 @@ func checkC11(c *Ctx, r *Result, tier string) {
 			if !bad {
 				r.Instance("R11a", key, c.Pos(fn.Pos()), "ok", fmt.Sprintf("%d captured variable(s), none written", nfree), true)
 			}
-			checkFreshFrame(c, r, fn, rtIface, "R11b")
+			checkFreshFrame(c, r, fn, rtIface, "R11b", nil)
 		}
 	}
 
@@ -161,7 +161,7 @@ func checkC11(c *Ctx, r *Result, tier string) {
 
 // checkFreshFrame: every Runtime.Eval invoked in fn gets a scope that is the result of a
 // scope constructor called in fn and an instance-state map made in fn.
-func checkFreshFrame(c *Ctx, r *Result, fn *ssa.Function, rtIface *types.Interface, rule string) int {
+func checkFreshFrame(c *Ctx, r *Result, fn *ssa.Function, rtIface *types.Interface, rule string, only func(in ssa.Instruction) bool) int {
 	n := 0
 	key := c.FuncKey(fn)
 	ord := newOrdinals()
@@ -171,7 +171,7 @@ func checkFreshFrame(c *Ctx, r *Result, fn *ssa.Function, rtIface *types.Interfa
 			return
 		}
 		args := ci.Common().Args
-		if len(args) < 2 {
+		if len(args) < 2 || (only != nil && !only(in)) {
 			return
 		}
 		n++
